@@ -8,8 +8,8 @@ import codec
 MODEL_TARGETS = ["model/De.vo", "spec/Denote.vo", "spec/Encoding.vo"]
 COQ_TARGETS = ["props/C03.vo"]
 THEOREMS = [("C03", ["C03_complete", "C03_long", "C03_long_is_crate", "C03_unbounded_refuted", "C03_sound", "C03_malformed_rejected", "C03_boolean_byte",
-                     "C03_invalid_utf8", "C03_union_index", "C03_enum_index", "C03_negative_length", "C03_premature_end", "C03_premature_end_varint"])]
-PROOF_FILES = ["proofs/DeProofs.v", "proofs/VarintProofs.v", "proofs/DeSoundBase.v", "proofs/DeSoundMain.v", "proofs/DeSoundReject.v", "proofs/DeSoundProofs.v", "proofs/DeSafetyProofs.v", "props/C03.v"]
+                     "C03_invalid_utf8", "C03_union_index", "C03_enum_index", "C03_negative_length", "C03_premature_end", "C03_premature_end_varint", "C03_typed_sound", "C03_typed_sound_datum"])]
+PROOF_FILES = ["proofs/DeProofs.v", "proofs/VarintProofs.v", "proofs/DeSoundBase.v", "proofs/DeSoundMain.v", "proofs/DeSoundReject.v", "proofs/DeSoundProofs.v", "proofs/DeSafetyProofs.v", "proofs/DeSoundTyped.v", "props/C03.v"]
 TRUSTED_BASE = [
     "Coq 8.16.1 kernel; no axioms (Print Assumptions: closed)",
     "spec/{AvroValue,Encoding,Denote}.v written from the Avro specification (values, conformance, every legal block layout, expected callbacks); extracted as the oracle",
